@@ -309,6 +309,30 @@ def miri_screen(a):
         common.rmtree(root)
 
 
+def memcheck_screen(a):
+    """supplementary screen (thorough tier): the release CLI on one input under valgrind memcheck (both modes, with the dependency
+    graph): an invalid read / write or a use of uninitialised memory anywhere in the process, dependencies included, is reported"""
+    rel, idx, files, mode = a
+    import shutil
+    vg = shutil.which("valgrind")
+    if not vg:
+        return {"status": "unavailable"}
+    root = common.scratch("c15v")
+    try:
+        common.write_tree(os.path.join(root, "src"), files)
+        r = common.run([vg, "--error-exitcode=99", "--leak-check=no", "-q", rel, "tauri-typegen", "generate", "-p", os.path.join(root, "src"),
+                        "-o", os.path.join(root, "out"), "-v", mode, "--visualize-deps"], cwd=root, timeout=600)
+        if r.timed_out:
+            return {"status": "timeout"}
+        if r.rc == 99 or "Invalid read" in r.err or "Invalid write" in r.err or "uninitialised" in r.err:
+            return {"status": "memcheck-error", "detail": r.err[-800:], "files": files}
+        if r.abnormal():
+            return {"status": "abnormal", "detail": "rc=%s %s" % (r.rc, r.err[-300:]), "files": files}
+        return {"status": "clean"}
+    finally:
+        common.rmtree(root)
+
+
 def mutate(rnd, text):
     if not text:
         return text
@@ -432,6 +456,20 @@ def run(tier):
             elif r["status"] == "panic":
                 v.violation("C15 abnormal-termination panic (under miri)", r["detail"], {"files": [[p2, t2] for (p2, t2) in r["files"]]})
         v.extra["miri_screen"] = statuses
+        try:
+            rel = common.build_cli_release()
+            vj = [(rel, i, exotic_project(random.Random(common.seed() * 131 + i), i), "zod" if i % 2 else "none") for i in range(96)]
+            vj += [(rel, 1000 + i, cyclic_project(random.Random(common.seed() * 137 + i), i), "zod" if i % 2 else "none") for i in range(32)]
+            vstat = {}
+            for r in common.pmap(memcheck_screen, vj, workers=16):
+                vstat[r["status"]] = vstat.get(r["status"], 0) + 1
+                if r["status"] == "memcheck-error":
+                    v.violation("C15 memcheck-error", r["detail"], {"files": [[p2, t2] for (p2, t2) in r["files"]], "build": "release under valgrind memcheck"})
+                elif r["status"] == "abnormal":
+                    v.violation("C15 abnormal-termination (release build under valgrind)", r["detail"], {"files": [[p2, t2] for (p2, t2) in r["files"]]})
+            v.extra["memcheck_screen"] = vstat
+        except common.Inconclusive as e:
+            v.extra["memcheck_screen"] = "unavailable: %s" % str(e)[:200]
     v.samples = [{"class": "generated", "example": gen_items[0][1][0][1][:400]}, {"class": "corpus", "files": [c[0] for c in citems[:3]]},
                  {"class": "non-rust", "example": NON_RUST[8]}]
     v.extra["corpus_files_available"] = len(corpus)
